@@ -342,7 +342,13 @@ func (w *W3) ClientPub() *rsa.PublicKey {
 	return pk
 }
 
-func (w *W3) ClientNameKey() (type3.EncapKey, error) { return type3.UnmarshalEncapKey(w.NameKeyWire) }
+// ClientNameKey decodes the name key the way a client receiving bytes would: from a buffer
+// of its own that it reuses afterwards.
+func (w *W3) ClientNameKey() (type3.EncapKey, error) {
+	var a argCopies
+	defer a.done()
+	return type3.UnmarshalEncapKey(a.c(w.NameKeyWire))
+}
 
 // T3Args are the client-side inputs of one rate-limited request.
 type T3Args struct {
